@@ -1,13 +1,13 @@
 (* C16 -- arbitrary chains (sdesc): data function, capacity, environment assumptions, and the
    transfer / hold theorems by induction over the chain description. *)
 From Coq Require Import List NArith Bool Arith Lia.
-From Gatery Require Import StreamDefs StreamSpec StreamCompose StreamStages StreamHold.
+From Gatery Require Import StreamDefs StreamSpec StreamCompose StreamStages StreamHold StreamPacket.
 Import ListNotations.
 
 (* ratios must be at least 1 (HCL_DESIGNCHECK in extendWidth / reduceWidth) *)
 Fixpoint wfd (d : sdesc) : Prop :=
   match d with
-  | DExtend r | DReduce r => 1 <= r
+  | DExtend r | DReduce r | DPReduce r => 1 <= r
   | DComp a b => wfd a /\ wfd b
   | _ => True
   end.
@@ -17,6 +17,8 @@ Fixpoint fn (d : sdesc) : list xfer -> list xfer :=
   match d with
   | DExtend r => pack r
   | DReduce r => unpack r
+  | DPExtend m r => ppack m r
+  | DPReduce r => unpack r
   | DComp a b => fun l => fn b (fn a l)
   | _ => idf
   end.
@@ -24,7 +26,7 @@ Fixpoint fn (d : sdesc) : list xfer -> list xfer :=
 (* expansion factor (Lipschitz constant of fn) and capacity in units of output transfers *)
 Fixpoint kd (d : sdesc) : nat :=
   match d with
-  | DReduce r => r
+  | DReduce r | DPReduce r => r
   | DComp a b => kd b * kd a
   | _ => 1
   end.
@@ -34,7 +36,7 @@ Fixpoint capd (d : sdesc) : nat :=
   | DRegDown | DRegBlock | DRegReady => 1
   | DRegDecouple => 2
   | DDelay n => n
-  | DStall _ | DExtend _ | DReduce _ => 0
+  | DStall _ | DExtend _ | DReduce _ | DPExtend _ _ | DPReduce _ => 0
   | DComp a b => capd b + kd b * capd a
   end.
 
@@ -43,13 +45,14 @@ Fixpoint capd (d : sdesc) : nat :=
 Fixpoint env (d : sdesc) : list cyc -> Prop :=
   match d with
   | DReduce r => EHold (reduceS r)
+  | DPReduce r => EHold (preduceS r)
   | DComp a b => Ecomp (denote a) (denote b) (env a) (env b)
   | _ => ETrue
   end.
 
 Fixpoint no_reduce (d : sdesc) : Prop :=
   match d with
-  | DReduce _ => False
+  | DReduce _ | DPReduce _ => False
   | DComp a b => no_reduce a /\ no_reduce b
   | _ => True
   end.
@@ -59,6 +62,8 @@ Proof.
   induction d; simpl; try apply mono_id.
   - apply mono_pack.
   - apply mono_unpack.
+  - apply mono_ppack.
+  - apply mono_unpack.
   - apply mono_comp; assumption.
 Qed.
 
@@ -66,6 +71,8 @@ Lemma fn_lip : forall d, lip (fn d) (kd d).
 Proof.
   induction d; simpl; try apply lip_id.
   - apply lip_pack.
+  - apply lip_unpack.
+  - apply lip_ppack.
   - apply lip_unpack.
   - apply lip_comp; [apply fn_mono | assumption | assumption].
 Qed.
@@ -82,6 +89,8 @@ Proof.
   - apply stall_Good.
   - apply extend_Good, W.
   - apply reduce_Good, W.
+  - apply pextend_Good.
+  - apply preduce_Good, W.
   - destruct W as [Wa Wb].
     apply Good_compose; [apply fn_mono | apply fn_mono | apply fn_lip | apply IHd1, Wa | apply IHd2, Wb].
 Qed.
@@ -89,6 +98,7 @@ Qed.
 Lemma env_no_reduce : forall d, no_reduce d -> forall cs, env d cs.
 Proof.
   induction d; simpl; intros H cs; try exact I.
+  - destruct H.
   - destruct H.
   - destruct H as [Ha Hb]. split; [apply IHd1, Ha | apply IHd2, Hb].
 Qed.
@@ -104,6 +114,8 @@ Proof.
   - apply stall_Good.
   - apply extend_Good, W.
   - destruct NR.
+  - apply pextend_Good.
+  - destruct NR.
   - destruct W as [Wa Wb]. destruct NR as [Na Nb].
     eapply Strong_weaken; [| apply compose_Strong; [apply fn_mono | apply IHd1; assumption | apply IHd2; assumption]].
     intros; split; exact I.
@@ -117,6 +129,7 @@ Fixpoint polite (d : sdesc) : st (denote d) -> cyc -> cyc -> Prop :=
   | DComp a b => Qcomp (denote a) (denote b) (polite a) (polite b)
   | DRegDown => QTrue _ | DRegBlock => QTrue _ | DRegReady => QTrue _ | DRegDecouple => QTrue _
   | DDelay n => QTrue _ | DExtend r => QTrue _ | DReduce r => QTrue _
+  | DPExtend m r => QTrue _ | DPReduce r => QTrue _
   end.
 
 Definition stalls_ok (d : sdesc) (cs : list cyc) : Prop := pairsFrom (denote d) (polite d) (init (denote d)) cs.
@@ -140,6 +153,8 @@ Proof.
   - apply stall_HoldC.
   - apply extend_HoldC.
   - apply reduce_HoldC.
+  - apply pextend_HoldC.
+  - apply preduce_HoldC.
   - apply HoldC_compose; assumption.
 Qed.
 
@@ -170,6 +185,7 @@ Theorem env_of_hold : forall d cs, stalls_ok d cs -> holdW (inW (trace (denote d
 Proof.
   induction d; intros cs HS HI; simpl; try exact I.
   - exact HI.
+  - exact HI.
   - destruct (stalls_ok_compose _ _ _ HS) as [Sa Sb].
     simpl in HI. rewrite inW_compose in HI. split.
     + apply IHd1; assumption.
@@ -182,4 +198,11 @@ Proof.
   induction l as [|d l IH]; intro H; [exact I|].
   inversion H as [|? ? Hd Hl]; subst. destruct l as [|d' l]; [exact Hd|].
   split; [exact Hd | apply IH, Hl].
+Qed.
+
+(* Packet.h matchWidth = the converter it selects at elaboration time *)
+Lemma wfd_matchD : forall m t, 1 <= m -> 1 <= t -> (t <= m -> m / t <> 0) -> wfd (matchD m t).
+Proof.
+  intros m t Hm Ht H. unfold matchD. destruct (Nat.ltb m t) eqn:E1; [exact I|].
+  destruct (Nat.ltb t m) eqn:E2; [|exact I]. simpl. apply Nat.ltb_lt in E2. specialize (H ltac:(lia)). lia.
 Qed.
